@@ -334,7 +334,9 @@ func runMulti(mc *multiCase, work string) (res *multiResult, f *failure) {
 			f = verify(when)
 		}
 		if f != nil {
-			f.Msg = when + ": " + f.Msg
+			if !strings.HasPrefix(f.Msg, "step ") {
+				f.Msg = when + ": " + f.Msg
+			}
 			return res, f
 		}
 	}
